@@ -113,6 +113,54 @@ def run_pandas(rep, cases):
                 rep.correspondence_break(c, "head=len(D) differs from no option on the positional frame")
 
 
+def run_index_entries(rep, rng, n):
+    """stand-alone index validation with the options (`Index.validate(obj, head=...)`, and a SeriesSchema whose only
+    constraints are on its index): the index is validated by position, so repeated labels are not de-duplicated here
+    and the verdict must equal that on the requested rows"""
+    import pandera as pa
+    for _ in range(n):
+        m = rng.randint(2, 6)
+        as_str = rng.random() < 0.4
+        labs = [rng.choice([1, 2, 3, 4]) for _ in range(m)]
+        labels = [str(x) for x in labs] if as_str else labs
+        h = rng.choice([None, 0, 1, 2, m])
+        t = rng.choice([None, None, 1, 2, m])
+        k = rng.choice([None, None, 1, 2])
+        if h is None and t is None and k is None:
+            h = rng.randint(0, m)
+        r = rng.choice([0, 1, 7])
+        kw = {kk: v for kk, v in (("head", h), ("tail", t), ("sample", k)) if v is not None}
+        if k is not None:
+            kw["random_state"] = r
+        req = sorted(set((list(range(min(h, m))) if h is not None else []) +
+                         (list(range(max(m - t, 0), m)) if t else []) +
+                         (sample_positions(m, k, r) if k is not None else [])))
+        ck = rng.choice(["unique", "unique", "lt3", "unique+lt3"])
+        mk_ix = lambda: pa.Index(str if as_str else int, unique="unique" in ck,
+                                 checks=[pa.Check(lambda s: s.astype(int) < 3, name="lt3")] if "lt3" in ck else None)
+        df = pd.DataFrame({"v": list(range(m))}, index=pd.Index(labels))
+        for entry in ("Index", "SeriesSchema"):
+            case = {"entry": entry, "labels": labels, "opts": kw, "constraint": ck, "requested": req}
+            if entry == "Index":
+                run_ = lambda obj, **o: P.run_validate(mk_ix(), obj, lazy=True, **o)
+                obj = df
+            else:
+                run_ = lambda obj, **o: P.run_validate(pa.SeriesSchema(int, index=mk_ix()), obj, lazy=True, **o)
+                obj = df["v"]
+            k1, out1 = run_(obj.copy(), **kw)
+            kreq, _ = run_(obj.iloc[req].copy())
+            rep.case(case, nontrivial=len(req) < m)
+            rep.evaluations += 1
+            rep.count(f"index-entry:{entry}:{k1}")
+            if "crash" in (k1, kreq):
+                continue
+            if k1 != kreq:
+                rep.property_failure(case, f"{entry}.validate with {kw} on labels {labels} is {k1}, on the requested rows "
+                                           f"{req} it is {kreq}")
+            elif k1 == "ok" and len(out1) != m:
+                rep.property_failure(case, f"{entry}.validate with {kw} returned {len(out1)} of {m} rows")
+
+
 def run_polars(rep, cases):
     try:
         import polars as pl  # noqa: F401
@@ -185,6 +233,9 @@ def run(tier, replay=None):
     rep = Report(PROP, tier)
     rep.audit = audit(PROP, MODULES)
     rep.audit["modules"] = MODULES
+    if replay and json.loads(open(replay).read())["case"].get("entry") in ("Index", "SeriesSchema"):
+        run_index_entries(rep, rng_for(PROP, "index-entries"), 150)
+        return rep.finish(rule="replay of the index-entry sweep (deterministic under VERIF_SEED)")
     if replay:
         case = json.loads(open(replay).read())["case"]
         (run_polars if case.get("backend") == "polars" else run_pandas)(rep, [case])
@@ -195,6 +246,7 @@ def run(tier, replay=None):
     run_pandas(rep, [c for c in corpus if c.get("backend") != "polars"] + [gen_case(rng) for _ in range(n)])
     run_polars(rep, [c for c in corpus if c.get("backend") == "polars"] +
                [gen_polars_case(rng) for _ in range(n // 4)])
+    run_index_entries(rep, rng_for(PROP, "index-entries"), 150 if tier == "quick" else 4000)
     return rep.finish(
         rule="C01's generator with repeated index labels and repeated rows; h, t, n <= len(D), fixed random_state; "
              "the sampled positions are read from pandas' own sample(); verdict with options vs verdict on the "
